@@ -251,7 +251,19 @@ func vfRunSender(t *testing.T, sc *vfTwccScript, out *vfWriter) {
 
 			return n, a, nil
 		}))
-	// a second stream without the extension must not contribute
+	// a second stream that negotiated the extension under ANOTHER id shares the transport-wide numbering
+	info2 := &interceptor.StreamInfo{
+		SSRC:                0x66778899,
+		RTPHeaderExtensions: []interceptor.RTPHeaderExtension{{URI: transportCCURI, ID: 3}},
+	}
+	reader2 := ic.BindRemoteStream(info2, interceptor.RTPReaderFunc(
+		func(b []byte, a interceptor.Attributes) (int, interceptor.Attributes, error) {
+			n := copy(b, cur)
+			tBefore = time.Now()
+
+			return n, a, nil
+		}))
+	// a stream without the extension must not contribute
 	plain := ic.BindRemoteStream(&interceptor.StreamInfo{SSRC: 0x99}, interceptor.RTPReaderFunc(
 		func(b []byte, a interceptor.Attributes) (int, interceptor.Attributes, error) {
 			return copy(b, cur), a, nil
@@ -286,7 +298,12 @@ func vfRunSender(t *testing.T, sc *vfTwccScript, out *vfWriter) {
 				t.Fatalf("VERIF-INFRA ext: %v", err)
 			}
 			hdr := rtp.Header{Version: 2, SSRC: 0x55667788, SequenceNumber: uint16(i)} //nolint:gosec
-			if err = hdr.SetExtension(5, ext); err != nil {
+			rd, extID := reader, uint8(5)
+			if i%4 == 2 { // (every fourth packet belongs to the stream with the other extension id)
+				rd, extID = reader2, 3
+				hdr.SSRC = 0x66778899
+			}
+			if err = hdr.SetExtension(extID, ext); err != nil {
 				t.Fatalf("VERIF-INFRA set ext: %v", err)
 			}
 			pkt := rtp.Packet{Header: hdr, Payload: []byte{1, 2, 3}}
@@ -306,7 +323,7 @@ func vfRunSender(t *testing.T, sc *vfTwccScript, out *vfWriter) {
 				}
 			}
 			started.Add(1)
-			_, _, err = reader.Read(buf, nil)
+			_, _, err = rd.Read(buf, nil)
 			tAfter := time.Now()
 			completed.Add(1)
 			if err != nil {
